@@ -155,7 +155,8 @@ def run(repo: Repo, chk: Check, thorough: bool = False) -> None:
     ok = bool(pl)
     for c in pl:
         tests = cfg_up.dominating_tests(cfg_up.stmt_of(c))
-        if not any(isinstance(t, ast.UnaryOp) and not pol for t, pol in tests):
+        datav = {norm(a) for a in c.args}
+        if not any(pol and isinstance(t, ast.Name) and t.id in datav for t, pol in tests):
             ok = False
     chk.ob('R17.3', f'{READER}.update :: missing data reported before decoding', ok,
            '_getPayload is only reached when the cache returned data' if ok else '_getPayload may be called with no data', up.loc)
